@@ -1200,7 +1200,10 @@ struct ssl
     tlsExtension_t *userExt; /* User provided extensions from session options.
                                 Stored here for reuse in renegotiations and in
                                 responses to TLS 1.3 HRRs. */
-# if defined(USE_CLIENT_SIDE_SSL) && defined(ENABLE_SECURE_REHANDSHAKES)
+# ifdef USE_CLIENT_SIDE_SSL
+    /* The explicit ciphersuite list of our last ClientHello (NULL: the
+       default list was sent). Needed to check the server's choice and
+       for re-sending during server-initiated renegotiations. */
     psCipher16_t *tlsClientCipherSuites;
     uint8_t tlsClientCipherSuitesLen;
 # endif
@@ -2211,6 +2214,7 @@ extern int32_t haveKeyMaterial(const ssl_t *ssl,
 extern psBool_t isAlpnSuite(const sslCipherSpec_t *suite);
 # ifdef USE_CLIENT_SIDE_SSL
 int32 csCheckCertAgainstCipherSuite(int32 sigAlg, int32 cipherType);
+extern psBool_t clientOfferedCipherSuite(ssl_t *ssl, uint16_t id);
 # endif
 extern void matrixSslSetKexFlags(ssl_t *ssl);
 
